@@ -46,6 +46,9 @@ type QuiesceOpts struct {
 	AllowHeld bool
 	// ParkedLoads: number of replicator loads the harness itself keeps parked per store index.
 	ParkedLoads map[int]int64
+	// StableOnly: do not require rest, only that nothing observable moved over a few fast polls (used
+	// between the steps of a fault script so that the next step sees a settled set of held messages).
+	StableOnly bool
 }
 
 func (w *World) snapshot(stores []iface.Store, o *QuiesceOpts) (vec, bool) {
@@ -102,19 +105,30 @@ func (w *World) WaitQuiescent(stores []iface.Store, o *QuiesceOpts, timeout time
 	sleep := time.Millisecond
 	for {
 		v, ok := w.snapshot(stores, o)
+		if o.StableOnly {
+			ok = true
+		}
 		if ok && last != nil && v.eq(last) {
 			stable++
 		} else {
 			stable = 0
 		}
 		last = v
-		if stable >= 4 {
+		need := 4
+		if o.StableOnly {
+			need = 8
+		}
+		if stable >= need {
 			return true
 		}
 		if time.Now().After(deadline) {
 			return false
 		}
 		runtime.Gosched()
+		if o.StableOnly {
+			time.Sleep(500 * time.Microsecond)
+			continue
+		}
 		time.Sleep(sleep)
 		if ok {
 			if sleep < 5*time.Millisecond {
